@@ -13,6 +13,9 @@ func checkC15(w *World, r *Report) {
 	c15Rewriter(w, r)
 	c15Outgoing(w, r)
 	c09Upstream(w, r)
+	c15Body(w, r)
+	c15HeaderWrites(w, r)
+	c15Unescape(w, r)
 }
 
 func c15CreateURL(w *World, r *Report) {
